@@ -27,7 +27,9 @@ CHECKS = {
             "mixed event queue (exactly once, FIFO, processIf touches only callable prototypes); TLC checks its ledger on all bounded histories and "
             "emits the cover; the scripts run on HeterCallbackList / HeterEventDispatcher / HeterEventQueue with five prototypes of differently "
             "sized tracked argument types (recycled slots, converting arguments, generic callbacks and predicates); TraceHet.tla judges each "
-            "execution, type confusion shows through the payloads' live-address registry and self-checks and through ASan/UBSan.",
+            "execution, type confusion shows through the payloads' live-address registry and self-checks and through ASan/UBSan. Enqueues through "
+            "arguments that convert to the prototype's parameter type (long, char, float -> int) are part of the model's state, and a processIf call that "
+            "reports 'nothing dispatched' must have asked about every pending event of every callable prototype.",
             "TLA+ model checking (TLC) of the reference model + transition-cover replay + TLC trace validation"),
     "C15": (MC, "7/C15", "seq",
             "RemGen.tla is the reference state machine of ScopedRemover (who answers for which listener, target, liveness) with the statement's "
@@ -62,7 +64,8 @@ CHECKS = {
     "C19": (MC, "7/C19", "seq",
             "CLImpl.tla with the counter maximum scaled down so the wrap-around falls at every position of every bounded history; the guarded hook "
             "puts the real 32-bit counter at the same distance from 2^32-1; TraceCL.tla allows the one freedom the statement grants (invocations in "
-            "progress at the wrap may call later additions) and is exact otherwise.",
+            "progress at the wrap may call later additions) and is exact otherwise. Worlds: SingleThreading, std::mutex and a tracked mutex that reports a "
+            "re-lock (getNextCounter taking the list mutex under a caller that already holds it) at once.",
             "TLA+ model checking (TLC) with scaled counter + cover replay with the counter hook + TLC trace validation"),
     "C04": (MC, "7/C04", "seq",
             "TLC model-checks DQImpl.tla (dispatcher + queue, listener lists at the level verified by CLImpl) for bounded histories over two event "
@@ -84,7 +87,9 @@ CHECKS = {
             "what lifetime depends on: removal during invocation and the shared_ptr cascade (CLImpl invariants NoLeak/Pinned), clearEvents, "
             "takeEvent, recycled slots, processing calls left by exceptions, destruction with events still pending (DQImpl), copies, moves, swaps "
             "and destruction of whole objects (ObjGen). Tracked types also keep a registry of live addresses (double destruction / use after "
-            "destruction is recorded as an event no specification accepts); LeakSanitizer runs on every interpreter process.",
+            "destruction is recorded as an event no specification accepts); LeakSanitizer runs on every interpreter process. Worlds with a tracked "
+            "threading policy do the same for the library's own mutexes and atomics, and the AnyData reference model (boxes, moves, queue round trips) is "
+            "part of the composite.",
             "TLA+ model checking (TLC) + transition-cover replay with instance-counting types + TLC trace validation of the lifetime ledger"),
     "C09": ("fault_enumeration", "7/C09", "seq",
             "The models (CLImpl, DQImpl) contain 'the running user code throws' as an operation, so TLC enumerates a throw at every position of "
@@ -110,7 +115,8 @@ CHECKS = {
             "listeners) model-checked and covered; executions of the real dispatcher/queue with MixinFilter in by-value / const& / & prototypes are "
             "validated by TraceDQ.tla: filter order, value flow through one cell per dispatch, first false stops that dispatch only, direct = queued. "
             "Worlds with several mixins (a hook-less mixin before MixinFilter; a second hooked mixin after / before it) bind the mixin-hook phase of the "
-            "specification; listeners wrapped by conditionalFunctor / argumentAdapter and a canContinueInvoking policy have their own model; HetGen.tla / "
+            "specification; listeners wrapped by conditionalFunctor / argumentAdapter and a canContinueInvoking policy (taking its arguments by const reference, "
+            "by value or by non-const reference) have their own model; HetGen.tla / "
             "TraceHet.tla do the same for MixinHeterFilter on a heterogeneous dispatcher (filters per prototype, scripted pass / rewrite / reject).",
             "TLA+ model checking (TLC) + transition-cover replay + TLC trace validation"),
     "C13": (MC, "7/C13", "seq",
@@ -160,7 +166,7 @@ CHECKS = {
     "C20": (MC, "7/C20", "seq",
             "The implementation-shaped models carry the configuration hazards as explicit nondeterminism / defects (argument evaluation order and "
             "implicit move in the dispatch path, indeterminate counters of copied queues) and TLC shows the properties hold only without them. "
-            "The covers of C02 (lists), C04 (dispatch), C05 (queue) and C10 (objects in pre-filled storage) are replayed in cells of {g++, clang++} "
+            "The covers of C02 (lists, plus the wrapping-counter cover of C19), C04 (dispatch), C05 (queue) and C10 (objects in pre-filled storage) are replayed in cells of {g++, clang++} "
             "x {C++11,14,17,20} x {-O0,-O2} x Threading x Map x key type x storage pattern (quick: 4 seeded cells per group, thorough: all 16); "
             "every trace must be accepted by the same abstract spec AND the observable traces of one script set must be byte-identical across "
             "the cells of a group (ledger counters excluded).",
